@@ -1109,6 +1109,10 @@ class Wtp:
                 ].add(page.title)
             if pre_expand:
                 self.set_template_pre_expand(page.title)
+            if pre_expand or page.need_pre_expand:
+                # Also start from templates that carry the mark already (from
+                # an earlier analysis of this store, or stored that way):
+                # templates added since then may include them
                 expand_stack.append(page)
 
         # XXX consider encoding template bodies here (also need to save related
